@@ -33,6 +33,7 @@ def c01(res):
 
 
 def c02(res):
+    res.extra["unbounded_inductive_invariant"] = EX.receiver_inductive()
     worker_families(res, ["MC_RecvCoreQuick", "MC_RecvPrefill", "MC_RecvWrapReal"], ["MC_RecvCoreFull", "MC_RecvPrefill", "MC_RecvDup", "MC_RecvWrapRealDeep"])
     file_scenario_deviations(res, boundary_transfers(res, "upload", "c02-boundary"), "c02-boundary",
                              "upload through the real process (real socket receive path) is not a behaviour of the receiver specification")
